@@ -39,6 +39,8 @@ def classify(prop, kind, item, prog):
     if kind == 'join' and item.get('join') in pj and item.get('what') in (
             'more than one execution of a join', 'join started more than once'):
         return {'kind': 'partial-join-reset-by-late-branch'}
+    if kind == 'action_twice' and item.get('task') in pj:
+        return {'kind': 'partial-join-reset-by-late-branch'}
     if kind == 'undeclared':
         return {'kind': 'undeclared-error', 'type': item.get('type'), 'where': item.get('where', '').split(':')[0]}
     if kind == 'stuck':
@@ -79,6 +81,9 @@ def eval_monitors(prog, tr, props, extra=None):
     if want('C10'):
         for b in er.created_while(tr, ('PAUSED',)):
             hits.append(('C10', 'created_paused', b))
+    if want('C06'):
+        for b in er.action_counts(tr, prog):
+            hits.append(('C06', 'action_twice', b))
     if want('C11'):
         for b in er.created_while(tr, er.FINAL):
             hits.append(('C11', 'created_final', b))
@@ -139,6 +144,10 @@ def deterministic_class(prog):
     no engine command racing live branches, no partial join (known finding), no failing guard"""
     if partial_joins(prog):
         return False
+    rc = wfgen.route_counts(prog)
+    for t in prog['tasks']:
+        if t.get('join') is None and rc[t['name']] > 1:
+            return False        # a non-join task activated more than once: outside the statement's class
     for t in prog['tasks']:
         for cl in ('on_success', 'on_error', 'on_complete'):
             for r in t.get(cl) or []:
